@@ -6,6 +6,8 @@ import (
 
 	"github.com/nspcc-dev/neo-go/pkg/core/transaction"
 	"github.com/nspcc-dev/neo-go/pkg/io"
+	"github.com/nspcc-dev/neo-go/pkg/neotest"
+	"github.com/nspcc-dev/neo-go/pkg/util"
 	"github.com/nspcc-dev/neo-go/pkg/vm/opcode"
 )
 
@@ -14,6 +16,7 @@ type c07PackIn struct {
 	Cfg    c07Cfg `json:"cfg"`
 	NTx    int    `json:"ntx"`
 	Rounds int    `json:"rounds"`
+	Cosign bool   `json:"cosign,omitempty"` // two-signer transactions, Conflicts against transactions paid by someone else, balances that bind
 }
 
 func c07GenPack(r *rng, thorough bool) c07PackIn {
@@ -25,6 +28,12 @@ func c07GenPack(r *rng, thorough bool) c07PackIn {
 	in.Cfg.MaxSize = uint32(900 + r.intn(5000))
 	in.Cfg.MaxSysFee = int64(3000_0000 + r.intn(8)*2500_0000)
 	in.Cfg.SRH = r.chance(35)
+	in.Cosign = r.chance(45)
+	if in.Cosign {
+		in.NTx = 5 + r.intn(8)
+		in.Cfg.MaxSysFee = 0 // default: the balances are what binds here
+		in.Cfg.MaxTx = uint16(4 + r.intn(10))
+	}
 	switch x := r.intn(100); {
 	case x < 20:
 		in.Cfg.MaxSize = 0 // default, never binds
@@ -39,6 +48,10 @@ func c07GenPack(r *rng, thorough bool) c07PackIn {
 func c07PackSetup(in c07PackIn) *c07Chain {
 	r := newRng(in.Seed)
 	c := c07NewChain(in.Cfg)
+	if in.Cosign {
+		c07PackCosign(c, r, in)
+		return c
+	}
 	accts := []*c07Acct{c07MakeAcct(r, 0, 0), c07MakeAcct(r, 0, 0), c07MakeAcct(r, 0, 0), c07MakeAcct(r, 2, 3)}
 	c.fund(30_0000_0000, accts...)
 	fpb := c.bc.FeePerByte()
@@ -77,8 +90,121 @@ func c07PackSetup(in c07PackIn) *c07Chain {
 		if err := c.bc.PoolTx(tx); err == nil {
 			made = append(made, tx)
 		}
+		c.notePool()
 	}
 	return c
+}
+
+// notePool evaluates, on the node's real pool, what a packed prefix inherits (the premise of
+// C07_pack_inherits_pool_invariant): no pooled transaction names a pooled one, and every sender's pooled
+// system + network fees are covered by its GAS balance on chain. The first failure is kept.
+func (c *c07Chain) notePool() {
+	if c.poolNote != "" {
+		return
+	}
+	pool := c.bc.GetMemPool().GetVerifiedTransactions()
+	sums := map[util.Uint160]int64{}
+	in := map[util.Uint256]bool{}
+	for _, tx := range pool {
+		sums[tx.Sender()] += tx.SystemFee + tx.NetworkFee
+		in[tx.Hash()] = true
+	}
+	for _, tx := range pool {
+		for _, a := range tx.GetAttributes(transaction.ConflictsT) {
+			if in[a.Value.(*transaction.Conflicts).Hash] {
+				c.poolNote = "the pool holds a transaction and one that names it in Conflicts"
+				return
+			}
+		}
+		if bal := c.bc.GetUtilityTokenBalance(tx.Sender(), util.Uint160{}); bal.IsInt64() && sums[tx.Sender()] > bal.Int64() {
+			c.poolNote = fmt.Sprintf("admitted although its sender cannot cover all of its pooled transactions: pooled fees %d, GAS balance %d", sums[tx.Sender()], bal.Int64())
+			return
+		}
+	}
+}
+
+// c07PackCosign: who signs vs who pays on the chain. Three accounts; most transactions carry a co-signer;
+// Conflicts aim at an earlier transaction that shares a signer with the newcomer but is paid by someone else
+// and is out-bid; the transactions are made first, then every sender is funded with an amount that binds
+// (the first sender A: fees(tx0)+fees(tx2)-fees(tx1) <= balance < fees(tx0)+fees(tx2) for tx0 = A's own,
+// tx1 = paid by B and co-signed by A, tx2 = A's with Conflicts{tx1}).
+func c07PackCosign(c *c07Chain, r *rng, in c07PackIn) {
+	accts := []*c07Acct{c07MakeAcct(r, 0, 0), c07MakeAcct(r, 0, 0), c07MakeAcct(r, 0, 0)}
+	fpb := c.bc.FeePerByte()
+	h0 := c.bc.BlockHeight()
+	type planned struct {
+		tx     *transaction.Transaction
+		sender int
+	}
+	var plan []planned
+	mk := func(sender, cosigner int, target *transaction.Transaction, extra int64) {
+		sg := []*c07Acct{accts[sender]}
+		if cosigner >= 0 && cosigner != sender {
+			sg = append(sg, accts[cosigner])
+		}
+		spec := c07TxSpec{signers: sg, script: c07PushOne, sysfee: int64(1+r.intn(3)) * 500_0000, scope: transaction.CalledByEntry,
+			vub: h0 + 6 + uint32(r.intn(3)), netfee: func(size int, calc int64) int64 { return int64(size)*fpb + calc + extra }}
+		if target != nil {
+			spec.attrs = []transaction.Attribute{{Type: transaction.ConflictsT, Value: &transaction.Conflicts{Hash: target.Hash()}}}
+			spec.netfee = func(size int, calc int64) int64 { return int64(size)*fpb + calc + target.NetworkFee + extra }
+		}
+		tx, _ := c.build(spec)
+		plan = append(plan, planned{tx, sender})
+	}
+	// the directed opening, then random ones
+	mk(0, pick(r, []int{-1, 1, 2}), nil, int64(r.intn(3))*100_0000)
+	mk(1, 0, nil, int64(r.intn(2))*100_0000)
+	mk(0, pick(r, []int{-1, -1, 2}), plan[1].tx, 100_0000)
+	for len(plan) < in.NTx {
+		s := r.intn(3)
+		co := -1
+		if r.chance(60) {
+			co = r.intn(3)
+		}
+		var target *transaction.Transaction
+		if r.chance(50) {
+			var cands []*transaction.Transaction
+			for _, p := range plan {
+				if p.sender == s {
+					continue // paid by the newcomer's own sender
+				}
+				for _, sg := range p.tx.Signers {
+					if sg.Account == accts[s].hash() || co >= 0 && sg.Account == accts[co].hash() {
+						cands = append(cands, p.tx)
+						break
+					}
+				}
+			}
+			if len(cands) > 0 {
+				target = pick(r, cands)
+			}
+		}
+		mk(s, co, target, int64(r.intn(3))*100_0000)
+	}
+	fees := func(tx *transaction.Transaction) int64 { return tx.SystemFee + tx.NetworkFee }
+	total := map[int]int64{}
+	maxOne := map[int]int64{}
+	for _, p := range plan {
+		total[p.sender] += fees(p.tx)
+		maxOne[p.sender] = max(maxOne[p.sender], fees(p.tx))
+	}
+	var funding []*transaction.Transaction
+	for i, a := range accts {
+		amount := maxOne[i] + int64(r.intn(int(total[i]-maxOne[i])+1))
+		if i == 0 {
+			f0, f1, f2 := fees(plan[0].tx), fees(plan[1].tx), fees(plan[2].tx)
+			amount = f0 + f2 - 1 - int64(r.intn(int(min(f1, f2))))
+		}
+		if total[i] == 0 {
+			amount = 1000_0000
+		}
+		funding = append(funding, c.e.NewTx(c.t, []neotest.Signer{c.val}, c.gas, "transfer", c.val.ScriptHash(), a.hash(), amount, nil))
+	}
+	c.addBlock(funding...)
+	for _, p := range plan {
+		_ = c.bc.PoolTx(p.tx)
+		c.notePool()
+	}
 }
 
 // c07TightSize picks a block size limit within +-40 bytes of an exact fit of some prefix of the pool.
@@ -138,12 +264,40 @@ func c07RunPack(co *caseOut, in c07PackIn) {
 			n1 = int(cfg.MaxTransactionsPerBlock)
 		}
 		hdr := b.GetExpectedBlockSizeWithoutTransactions(n1)
-		var pairs []string
+		// the pool as the model sees it: ids = positions, account numbers in order of appearance
+		acct := map[util.Uint160]int{}
+		pos := map[util.Uint256]int{}
+		for i, tx := range pool {
+			pos[tx.Hash()] = i
+		}
+		var recs, bals []string
 		var sizes, fees []int64
-		for _, tx := range pool {
-			pairs = append(pairs, fmt.Sprintf("(%d,%d)", tx.Size(), tx.SystemFee))
+		for i, tx := range pool {
+			var sg []int
+			for _, sn := range tx.Signers {
+				if _, ok := acct[sn.Account]; !ok {
+					acct[sn.Account] = 2 + len(acct)
+				}
+				sg = append(sg, acct[sn.Account])
+			}
+			var cf []int
+			for k, a := range tx.GetAttributes(transaction.ConflictsT) {
+				if p, ok := pos[a.Value.(*transaction.Conflicts).Hash]; ok {
+					cf = append(cf, p)
+				} else {
+					cf = append(cf, 1000+100*i+k)
+				}
+			}
+			recs = append(recs, fmt.Sprintf("mkTx %d %s %d %d %d false %s None", i, c08Ints(sg), tx.SystemFee, tx.NetworkFee, tx.Size(), c08Ints(cf)))
 			sizes = append(sizes, int64(tx.Size()))
 			fees = append(fees, tx.SystemFee)
+		}
+		seenS := map[util.Uint160]bool{}
+		for _, tx := range pool {
+			if !seenS[tx.Sender()] {
+				seenS[tx.Sender()] = true
+				bals = append(bals, fmt.Sprintf("((%d,0),%s)", acct[tx.Sender()], c.bc.GetUtilityTokenBalance(tx.Sender(), util.Uint160{}).String()))
+			}
 		}
 		// sel must be a prefix of the pool order
 		prefix := len(sel) <= len(pool)
@@ -157,11 +311,16 @@ func c07RunPack(co *caseOut, in c07PackIn) {
 			cut = "cut"
 		}
 		tag := cut
+		if in.Cosign {
+			tag += "/cosign"
+		}
 		if in.Cfg.SRH {
 			tag += "/srh"
 		}
 		note := ""
 		switch {
+		case round == 0 && c.poolNote != "":
+			note = c.poolNote
 		case !prefix:
 			note = "ApplyPolicyToTxSet did not return a prefix of the pool order"
 		case len(sel) > 0 && uint32(encoded) > cfg.MaxBlockSize:
@@ -178,8 +337,8 @@ func c07RunPack(co *caseOut, in c07PackIn) {
 			tag = "violation"
 		}
 		co.add("pack", tag, len(sel) < len(pool), in, impl,
-			fmt.Sprintf("CPack %d%%nat %d %d %d %d [%s] %d%%nat", cfg.MaxTransactionsPerBlock, cfg.MaxBlockSize, cfg.MaxBlockSystemFee,
-				hdr, encoded-txBytes, strings.Join(pairs, ";"), len(sel)))
+			fmt.Sprintf("CPack %d%%nat %d %d %d %d [%s] [%s] %d%%nat", cfg.MaxTransactionsPerBlock, cfg.MaxBlockSize, cfg.MaxBlockSystemFee,
+				hdr, encoded-txBytes, strings.Join(recs, ";"), strings.Join(bals, ";"), len(sel)))
 		if note != "" {
 			co.violation("pack", note, in, impl)
 		}
@@ -191,6 +350,12 @@ func c07RunPack(co *caseOut, in c07PackIn) {
 		if err := c.bc.AddBlock(b); err != nil {
 			co.violation("pack", "the packed block is refused by the node that packed it: "+err.Error(), in, impl)
 			return
+		}
+		if c.poolNote == "" {
+			c.notePool()
+			if c.poolNote != "" {
+				co.violation("pack", "after the block: "+c.poolNote, in, impl)
+			}
 		}
 	}
 }
